@@ -505,7 +505,9 @@ def gen_stub_script(rng, observer):
         elif k == 'cd':
             m2.append((k, rng.choice(['tmp', 'act', ('other', 1), ('other', 2)])))
         else:
-            m2.append((k, rng.choice(['act', 'tmp']), rng.randint(1, 3)))
+            f = (k, rng.choice(['act', 'tmp']), rng.randint(1, 3))
+            if f not in m2:  # a file is created once
+                m2.append(f)
     return {'usages': us, 'm1': m1, 'm2': m2}
 
 
@@ -739,6 +741,271 @@ def observe_stub_history(hist, d):
     return dict(hist, obs=obs, alone=alone, final=final, proc_ok=proc_ok)
 
 
+# ----- experiment 2: real cases, real instructions ---------------------------------------------------------
+REAL_OPS = {
+    'env_both': lambda k, v: [('env', k, v), ('actenv', k, v)],
+    'env_act': lambda k, v: [('actenv', k, v)],
+    'env_nonact': lambda k, v: [('env', k, v)],
+    'unset_both': lambda k: [('unenv', k), ('unactenv', k)],
+    'unset_act': lambda k: [('unactenv', k)],
+    'unset_nonact': lambda k: [('unenv', k)],
+    'timeout': lambda t: [('timeout', t)],
+    'cd': lambda a: [('cd', a)],
+    'file': lambda a, n: [('file', a, n)],
+    'sleep': lambda secs: [],
+}
+
+
+def real_op_text(op):
+    k = op[0]
+    if k.startswith('env_'):
+        return 'env %sC17K_%d = %d' % ({'both': '', 'act': '-of act ', 'nonact': '-of !act '}[k[4:]], op[1], op[2])
+    if k.startswith('unset_'):
+        return 'env %sunset C17K_%d' % ({'both': '', 'act': '-of act ', 'nonact': '-of !act '}[k[6:]], op[1])
+    if k == 'timeout':
+        return 'timeout = %d' % op[1]
+    if k == 'cd':
+        return 'cd -rel-%s .' % op[1]
+    if k == 'file':
+        return 'file -rel-%s f%d = "x"' % (op[1], op[2])
+    raise ValueError(op)
+
+
+def real_script_model(sc):
+    m2 = []
+    for op in sc['ops']:
+        m2 += REAL_OPS[op[0]](*op[1:])
+    return {'usages': sc['usages'], 'm1': [], 'm2': m2}
+
+
+def probe(tag, log, with_dirs):
+    s = '%s;' % tag + ''.join('%d=${C17K_%d-U};' % (k, k) for k in KEYS)
+    if with_dirs:
+        s += "cwd=$(pwd);act=$(ls -A @[EXACTLY_ACT]@ | tr '\\n' ,);tmp=$(ls -A @[EXACTLY_TMP]@ | tr '\\n' ,);"
+    return '$ echo "%s" >> %s' % (s, log)
+
+
+def real_case_text(sc, log):
+    out = ['[setup]', probe('P0', log, True)]
+    for k, n in sc['usages']:
+        out.append('def string C17S_%d = x' % n if k == 'def' else '$ true @[C17S_%d]@' % n)
+    sleeps = [op for op in sc['ops'] if op[0] == 'sleep']
+    out += [real_op_text(op) for op in sc['ops'] if op[0] != 'sleep']
+    out += ['[act]', probe('A', log, False)]
+    if sleeps:
+        out += ['[assert]'] + ['$ sleep %s' % op[1] for op in sleeps]
+    out += ['[cleanup]', probe('P1', log, True)]
+    return '\n'.join(out) + '\n'
+
+
+def gen_real_script(rng, observer):
+    us, ops = [], []
+    if observer:
+        if rng.chance(0.5):
+            us.append(('ref', rng.choice([2, 3])))
+        elif rng.chance(0.3):
+            us.append(('def', rng.choice([2, 3])))  # defining what another case defined is fine only if nothing leaks
+        return {'usages': us, 'ops': ops}
+    for _ in range(rng.choice([0, 1, 1, 2])):
+        n = rng.choice([2, 3])
+        if ('def', n) not in us:
+            us.append(('def', n))
+            if rng.chance(0.3):
+                us.append(('ref', n))
+    for _ in range(rng.randint(1, 5)):
+        k = rng.choice(['env_both', 'env_both', 'env_act', 'env_nonact', 'unset_both', 'unset_act', 'unset_nonact', 'timeout', 'cd',
+                        'file', 'file'])
+        if k.startswith('env_'):
+            ops.append((k, rng.choice([1, 2, 3, 9]), rng.randint(1, 5)))
+        elif k.startswith('unset_'):
+            ops.append((k, rng.choice([1, 9])))
+        elif k == 'timeout':
+            ops.append((k, rng.randint(2, 9)))
+        elif k == 'cd':
+            ops.append((k, rng.choice(['tmp', 'act'])))
+        else:
+            f = (k, rng.choice(['act', 'tmp']), rng.randint(1, 3))
+            if f not in ops:
+                ops.append(f)
+    return {'usages': us, 'ops': ops}
+
+
+def permutations(xs):
+    if len(xs) <= 1:
+        return [list(xs)]
+    return [[x] + p for i, x in enumerate(xs) for p in permutations(xs[:i] + xs[i + 1:])]
+
+
+def gen_real_family(rng, quick, timeout_family=False):
+    if timeout_family:
+        scripts = [{'usages': [], 'ops': [('timeout', 1)]}, {'usages': [], 'ops': [('sleep', '1.4')]}]
+        return {'scripts': scripts, 'orders': [[0, 1], [1, 0, 1]]}
+    n_act = rng.randint(1, 2)
+    scripts = [gen_real_script(rng, False) for _ in range(n_act)] + [gen_real_script(rng, True) for _ in range(rng.randint(1, 2))]
+    orders = permutations(list(range(len(scripts))))
+    if len(orders) > 6 and quick:
+        orders = rng.sample(orders, 6)
+    rep = list(range(len(scripts)))
+    rng.shuffle(rep)
+    orders.append(rep + [rep[0]])  # a case run twice
+    return {'scripts': scripts, 'orders': orders}
+
+
+_PROBE = re.compile(r'^(P0|A|P1);(.*)$')
+
+
+def parse_probes(text, sbx_roots):
+    """log text of one case -> {'P0': view, 'A': view, 'P1': view}"""
+    out = {}
+    for line in text.split('\n'):
+        m = _PROBE.match(line)
+        if not m:
+            if line.strip():
+                out.setdefault('junk', []).append(line)
+            continue
+        v = {'env': []}
+        for field in m.group(2).split(';'):
+            if not field:
+                continue
+            k, _, val = field.partition('=')
+            if k.isdigit():
+                if val != 'U':
+                    v['env'].append((int(k), int(val) if val.isdigit() else 9999))
+            elif k == 'cwd':
+                real = os.path.realpath(val)
+                cls = 99
+                if any(os.path.dirname(os.path.dirname(real)) == os.path.realpath(r) for r in sbx_roots) and \
+                        os.path.basename(real) in ('act', 'tmp', 'result', 'internal'):
+                    cls = os.path.basename(real)
+                v['cwd'] = cls
+            elif k in ('act', 'tmp'):
+                for name in val.split(','):
+                    if name:
+                        mm = re.match(r'^f(\d+)$', name)
+                        v.setdefault('files', []).append((k, int(mm.group(1)) if mm else 999))
+                v.setdefault('files', [])
+        out[m.group(1)] = v
+    return out
+
+
+def ocase_of_probes(ident, pr):
+    o = {'result': ident, 'end1': None, 'view2': None, 'end2': None}
+    if 'junk' in pr:
+        o['result'] = 'JUNK ' + repr(pr['junk'])[:200]
+    if 'P0' in pr:
+        o['view2'] = pr['P0']
+    if 'P1' in pr:
+        o['end2'] = dict(pr['P1'])
+        if 'A' in pr:
+            o['end2']['act_env'] = pr['A']['env']
+    return o
+
+
+def exec_main(mp, args, cwd, log):
+    """MainProgram.execute in directory cwd -> (stdout text, cwd restored?, os.environ untouched?, exception)"""
+    from exactly_lib.util.file_utils.std import StdOutputFiles
+    out, err = RecordingOut(log), io.StringIO()
+    env0 = dict(os.environ)
+    os.chdir(cwd)
+    exc = None
+    try:
+        mp.execute(list(args), StdOutputFiles(out, err))
+    except BaseException as ex:
+        if isinstance(ex, KeyboardInterrupt):
+            raise
+        exc = ex
+    cwd_ok = os.path.realpath(os.getcwd()) == os.path.realpath(cwd)
+    env_ok = dict(os.environ) == env0
+    if not env_ok:
+        os.environ.clear()
+        os.environ.update(env0)
+    return out, cwd_ok, env_ok, exc
+
+
+def observe_real_family(fam, d, sbx):
+    os.environ['C17K_9'] = '1'
+    log = os.path.join(d, 'LOG')
+    n = len(fam['scripts'])
+    for i, sc in enumerate(fam['scripts']):
+        with open(os.path.join(d, 'c%d.case' % i), 'w') as f:
+            f.write(real_case_text(sc, log))
+    # every case alone, each in a process of its own
+    procs = []
+    runner = os.path.join(common.REPO, 'src', 'default-main-program-runner.py')
+    for i, sc in enumerate(fam['scripts']):
+        ad = os.path.join(d, 'alone%d' % i)
+        os.makedirs(os.path.join(ad, 'tmp'))
+        with open(os.path.join(ad, 'c.case'), 'w') as f:
+            f.write(real_case_text(sc, os.path.join(ad, 'LOG')))
+        env = dict(os.environ, PYTHONPATH=os.path.join(common.REPO, 'src'), PYTHONWARNINGS='ignore', TMPDIR=os.path.join(ad, 'tmp'), C17K_9='1')
+        procs.append((ad, subprocess.Popen([sys.executable, runner, 'c.case'], cwd=ad, env=env, stdout=subprocess.PIPE,
+                                           stderr=subprocess.DEVNULL, text=True)))
+    alone = []
+    for ad, p in procs:
+        out, _ = p.communicate(timeout=120)
+        ident = (out.strip().splitlines() or ['?'])[0]
+        try:
+            text = open(os.path.join(ad, 'LOG')).read()
+        except OSError:
+            text = ''
+        alone.append(ocase_of_probes(ident, parse_probes(text, [os.path.join(ad, 'tmp')])))
+    mp = impl.main_program(sbx)
+    hists = []
+    old = os.getcwd()
+    try:
+        for k, order in enumerate(fam['orders']):
+            base = {'osenv': [(9, 1)], 'environ': None, 'syms': [], 'timeout': 60,
+                    'scripts': [real_script_model(fam['scripts'][i]) for i in order], 'alone': [alone[i] for i in order], 'final': None,
+                    'order': order}
+            # (a) as a suite
+            with open(os.path.join(d, 'o%d.suite' % k), 'w') as f:
+                f.write('[cases]\n' + ''.join('c%d.case\n' % i for i in order))
+            if os.path.exists(log):
+                os.remove(log)
+            out, cwd_ok, env_ok, exc = exec_main(mp, ['suite', 'o%d.suite' % k], d, log)
+            os.chdir(old)
+            try:
+                logb = open(log, 'rb').read()
+            except OSError:
+                logb = b''
+            obs, cur, pending = [], None, ''
+            for text, pos in out.events:
+                pending += text
+                while True:
+                    m = _CASE_BEGIN.search(pending) if '\n' not in pending else None
+                    if m and cur is None:
+                        cur = pos
+                        pending = ''
+                        break
+                    if '\n' not in pending:
+                        break
+                    line, _, pending = pending.partition('\n')
+                    if cur is not None:
+                        ident = line.split(') ')[-1].strip()
+                        obs.append(ocase_of_probes(ident, parse_probes(logb[cur:pos].decode('utf-8', 'replace'), [sbx])))
+                        cur = None
+            hists.append(dict(base, mode='suite', obs=obs, proc_ok=cwd_ok and env_ok and exc is None and not os.listdir(sbx),
+                              note=repr(exc) if exc else ''))
+            # (b) one after the other, standalone, with the same MainProgram object
+            obs, ok = [], True
+            for i in order:
+                if os.path.exists(log):
+                    os.remove(log)
+                out, cwd_ok, env_ok, exc = exec_main(mp, ['c%d.case' % i], d, log)
+                os.chdir(old)
+                ok = ok and cwd_ok and env_ok and exc is None
+                ident = (out.getvalue().strip().splitlines() or ['?'])[0]
+                try:
+                    text = open(log).read()
+                except OSError:
+                    text = ''
+                obs.append(ocase_of_probes(ident, parse_probes(text, [sbx])))
+            hists.append(dict(base, mode='standalone, one after the other', obs=obs, proc_ok=ok and not os.listdir(sbx), note=''))
+    finally:
+        os.chdir(old)
+    return {'case_files': {'c%d.case' % i: real_case_text(sc, 'LOG') for i, sc in enumerate(fam['scripts'])}, 'hists': hists}
+
+
 # ---------------------------------------------------------------------------------------------------------
 # workers
 # ---------------------------------------------------------------------------------------------------------
@@ -759,6 +1026,8 @@ def _worker(job):
                     out.append(('ok', observe_suite_instance(item, d, sbx)))
                 elif kind == 'stub':
                     out.append(('ok', observe_stub_history(item, d)))
+                elif kind == 'real':
+                    out.append(('ok', observe_real_family(item, d, sbx)))
                 else:
                     raise ValueError(kind)
             except Exception as ex:  # fail-closed: reported as a harness error
@@ -813,6 +1082,30 @@ def run(ctx, res):
             res.count('exp1 in-suite identifier ' + x[2])
         if any(any(f[p] for p in PHASES) or f['conf'] for f in inst['files'].values() if f['kind'] == 'suite'):
             res.nontrivial.add(json.dumps(d['files'], sort_keys=True))
+    # ---- experiment 2
+    n_fam = 14 if ctx.quick else 150
+    fams = [gen_real_family(rng, ctx.quick, timeout_family=(i % 50 == 0)) for i in range(n_fam)]
+    for fam, (st, obs) in zip(fams, run_parallel(ctx, 'real', fams)):
+        if st != 'ok':
+            res.errors.append('real-history experiment failed to run: ' + obs)
+            continue
+        for h in obs['hists']:
+            d = {'experiment': 'real history', 'case_files': obs['case_files'], 'order': ['c%d.case' % i for i in h['order']],
+                 'run as': h['mode'], 'observed': h['obs'], 'observed_alone_in_fresh_process': h['alone'], 'process_ok': h['proc_ok'],
+                 'note': h['note']}
+            try:
+                terms.append(hist_term(h))
+            except Exception as ex:
+                # an identifier or probe output that cannot even be classified is a failure of the property, not of the harness
+                res.prop_failures.append(Failure('property', d, 'unclassifiable observation: %r' % (ex,)))
+                continue
+            meta.append(d)
+            res.count('exp2 runs as ' + h['mode'])
+            res.count('exp2 cases per history: %d' % len(h['order']))
+            for o in h['obs']:
+                res.count('exp2 identifier ' + o['result'])
+            if any(sc['m2'] or sc['usages'] for sc in h['scripts']):
+                res.nontrivial.add(json.dumps([obs['case_files'], h['order'], h['mode']], sort_keys=True))
     # ---- experiment 3
     n_stub = 400 if ctx.quick else 6000
     hists = [gen_stub_history(rng) for _ in range(n_stub)]
